@@ -10,7 +10,6 @@ import (
 	"encoding/binary"
 	"fmt"
 	"io"
-	"os"
 	"path/filepath"
 	"sync"
 	"syscall"
@@ -183,51 +182,62 @@ func vPipeUnread(fd uintptr) int {
 }
 
 type vPipeSink struct {
-	rd    *os.File
-	mu    sync.Mutex
-	got   []byte
-	done  chan struct{}
-	drain chan struct{}
-	once  sync.Once
+	fd     int
+	mu     sync.Mutex
+	got    []byte
+	done   chan struct{}
+	drain  chan struct{}
+	once   sync.Once
+	closed bool // set by the harness once the writer has closed its end
 }
 
+// newPipeSink creates the FIFO and opens its read end (raw, non-blocking). The consumer goroutine
+// reads under the mutex, so at any instant every byte written to the pipe is either still in the
+// pipe (FIONREAD) or in got: total() is exact.
 func newPipeSink(path string) (*vPipeSink, error) {
 	if err := syscall.Mkfifo(path, 0o644); err != nil {
 		return nil, err
 	}
-	rd, err := os.OpenFile(path, os.O_RDONLY|syscall.O_NONBLOCK, 0)
+	fd, err := syscall.Open(path, syscall.O_RDONLY|syscall.O_NONBLOCK, 0)
 	if err != nil {
 		return nil, err
 	}
-	vFcntl(rd.Fd(), 1031 /* F_SETPIPE_SZ */, 4096)
-	s := &vPipeSink{rd: rd, done: make(chan struct{}), drain: make(chan struct{})}
+	vFcntl(uintptr(fd), 1031 /* F_SETPIPE_SZ */, 4096)
+	s := &vPipeSink{fd: fd, done: make(chan struct{}), drain: make(chan struct{})}
 	go func() {
 		defer close(s.done)
 		<-s.drain
 		buf := make([]byte, 1<<16)
 		for {
-			n, err := s.rd.Read(buf)
+			s.mu.Lock()
+			n, _ := syscall.Read(s.fd, buf)
 			if n > 0 {
-				s.mu.Lock()
 				s.got = append(s.got, buf[:n]...)
-				s.mu.Unlock()
 			}
-			if err != nil {
+			fin := n <= 0 && s.closed
+			s.mu.Unlock()
+			if fin {
 				return
+			}
+			if n <= 0 {
+				time.Sleep(100 * time.Microsecond)
 			}
 		}
 	}()
 	return s, nil
 }
 
-// release lets the consumer read from now on (until EOF).
+// release lets the consumer read from now on.
 func (s *vPipeSink) release() { s.once.Do(func() { close(s.drain) }) }
 
-func (s *vPipeSink) consumed() int {
+// total returns the number of bytes written to the pipe so far (consumed + still unread).
+func (s *vPipeSink) total() int {
 	s.mu.Lock()
 	defer s.mu.Unlock()
-	return len(s.got)
+	return len(s.got) + vPipeUnread(uintptr(s.fd))
 }
+
+func (s *vPipeSink) markClosed() { s.mu.Lock(); s.closed = true; s.mu.Unlock() }
 
 type vStallWriter interface {
 	write(id int) error
@@ -377,8 +387,8 @@ func vRunStallLayer2(c *vCase) bool {
 	if !vWatched(c, "writer.Flush", 30*time.Second, func() { sw.flush() }) {
 		return false
 	}
-	inPipe := sink.consumed() + vPipeUnread(sink.rd.Fd())
 	accAtFlush := len(accepted)
+	flushSeen := sink.total()
 	// more records after the flush
 	for i := 0; i < r.Intn(30); i++ {
 		if sw.write(id) == nil {
@@ -389,13 +399,14 @@ func vRunStallLayer2(c *vCase) bool {
 	if !vWatched(c, "writer.Close", 30*time.Second, func() { sw.close() }) {
 		return false
 	}
+	sink.markClosed()
 	select {
 	case <-sink.done:
 	case <-time.After(30 * time.Second):
-		c.Inconclusive("pipe", "the read end never saw EOF after Close")
+		c.Inconclusive("pipe", "the consumer did not finish after Close")
 		return false
 	}
-	sink.rd.Close()
+	syscall.Close(sink.fd)
 	b := sink.got
 	what := []string{"ljh22", "ljh3", "off"}[kind]
 	var gotIDs []int
@@ -458,10 +469,8 @@ func vRunStallLayer2(c *vCase) bool {
 		return false
 	}
 	// the flush: everything accepted before Flush returned had reached the file (pipe) when it returned.
-	// (consumed and FIONREAD are sampled one after the other while the consumer runs, so bytes that move
-	// between the two samples are counted twice: the check is one-sided.)
-	if inPipe < hdrLen+accAtFlush*sw.recSize() {
-		c.Violate("c07:l2-flush-incomplete", "%s: when Flush returned only %d bytes had reached the file, but the header (%d) and %d accepted records of %d bytes had been written before", what, inPipe, hdrLen, accAtFlush, sw.recSize())
+	if flushSeen < hdrLen+accAtFlush*sw.recSize() {
+		c.Violate("c07:l2-flush-incomplete", "%s: when Flush returned only %d bytes had reached the file, but the header (%d) and %d accepted records of %d bytes had been written before", what, flushSeen, hdrLen, accAtFlush, sw.recSize())
 		return false
 	}
 	c.Cov("l2_flush_checks", 1)
